@@ -1,10 +1,11 @@
 #!/bin/bash
-# seeded_regress.sh: every seeded change against the quick check of its own property; prints one line each.
+# seeded_regress.sh: every seeded change against the quick check of its own property; prints one line each
+# (viol = VIOLATION lines, with_input = those with a reproduced failing input, undecided = UNDECIDED lines)
 cd /verif
 for d in seeded/*/; do
   id=$(basename $d); prop=$(python3 -c "import json;print(json.load(open('$d/meta.json'))['property'])")
   out=$(tools/try_mutant.sh /verif/$d/patch.diff quick $prop 2>&1)
-  line=$(echo "$out" | grep "^property" | tail -1)
-  v=$(echo "$out" | grep -c "^VIOLATION"); u=$(echo "$out" | grep -c "^UNDECIDED")
-  echo "$id viol=$v undecided=$u :: $line"
+  line=$(echo "$out" | grep "^property" | tail -1 | sed 's/.*-> //')
+  v=$(echo "$out" | grep -c "^VIOLATION"); w=$(echo "$out" | grep "^VIOLATION" | grep -vc "no-failing-input-found"); u=$(echo "$out" | grep -c "^UNDECIDED")
+  echo "$id viol=$v with_input=$w undecided=$u :: $line"
 done
